@@ -23,6 +23,22 @@ type c14op struct {
 	o     *dialect.Op
 	body  *JS
 	plans []c10plan // one per response of o, in o.Responses order
+	extra []string  // further request documents (bodies that are not described by a JS value: oneOf)
+}
+
+// c14Wide: C14's own documents also use shapes the other users of c14Package (C18, the translators) leave alone: a oneOf
+// body with a discriminator mapping, arrays of arrays as query parameters
+var c14Wide bool
+
+// c14Target: the component schema a parameter schema written as a $ref stands for
+var c14Target = map[*dialect.Schema]*dialect.Schema{}
+
+// documents for the oneOf request body of c14Package (VarA: kind, a required, meta any; VarB: kind, b required)
+var c14OneOfDocs = []string{
+	`{"kind":"a","a":"x"}`, `{"kind":"b","b":1}`, `{"a":"x","kind":"a","meta":{"deep":[1,{"x":null}],"s":"t"}}`, `{"kind":"b","b":-9223372036854775808}`,
+	`{"kind":"a","a":"x"}`, `{"kind":"b","b":1}`, `{"kind":"c"}`, `{"kind":"a","a":"x","b":1}`, `{"kind":1,"a":"x"}`, `{"kind":"a"}`, `{"kind":"b","b":"str"}`,
+	`{"kind":"A","a":"x"}`, `{"Kind":"a","a":"x"}`, `{"kind":null,"a":"x"}`, `{"a":"x"}`, `{"b":2}`, `{"kind":"b","b":1.5}`, `{"kind":"b","b":1e400}`,
+	`{"kind":"a","a":"x","meta":null}`, `{"kind":"a","a":null}`, `{"kind":["a"],"a":"x"}`, `{"kind":"a","a":"x","kind":"b"}`, `{"kind":"b","b":1,"zz":{}}`,
 }
 
 // c14RefAllPrims: primitive properties and items of the bodies are components used by $ref (C18's reference-rich documents)
@@ -78,8 +94,26 @@ func c14Package(rng *rand.Rand, idx int) (rcase, []c14op) {
 				if rng.Intn(5) == 0 {
 					sc.Nullable = true
 				}
+				// a quarter of the schemas (of scalars and of array items) are components used by $ref
+				viaRef := func(t *dialect.Schema) *dialect.Schema {
+					if t.Nullable || rng.Intn(4) != 0 {
+						return t
+					}
+					cn := fmt.Sprintf("PS%d", len(sp.CompSchemas))
+					sp.CompSchemas = append(sp.CompSchemas, dialect.Prop{Name: cn, Schema: t})
+					r := &dialect.Schema{Ref: cn}
+					c14Target[r] = t
+					return r
+				}
+				sc = viaRef(sc)
 				if rng.Intn(3) == 0 {
 					sc = &dialect.Schema{Type: "array", Items: sc}
+					if c14Wide && in == "query" && rng.Intn(4) == 0 {
+						sc = &dialect.Schema{Type: "array", Items: sc}
+					} else if sc.Items.Ref == "" && rng.Intn(6) == 0 {
+						// the array itself as a component
+						sc = viaRef(sc)
+					}
 				}
 				name := fmt.Sprintf("q%d", k)
 				if in == "header" {
@@ -88,8 +122,30 @@ func c14Package(rng *rand.Rand, idx int) (rcase, []c14op) {
 				o.Params = append(o.Params, dialect.Param{Name: name, In: in, Required: rng.Intn(2) == 0, Schema: sc})
 			}
 			var body *JS
+			var extra []string
 			if m != "GET" && m != "DELETE" && m != "OPTIONS" {
-				switch rng.Intn(4) {
+				switch rng.Intn(5) {
+				case 4:
+					// a oneOf body: two object components told apart by a required key (and by a discriminator in C14's own
+					// documents); VarA has a property that is a component without a type (any)
+					if !hasProp(sp.CompSchemas, "VarA") {
+						str, i64 := &dialect.Schema{Type: "string"}, &dialect.Schema{Type: "integer", Format: "int64"}
+						sp.CompSchemas = append(sp.CompSchemas,
+							dialect.Prop{Name: "AnyMeta", Schema: &dialect.Schema{}},
+							dialect.Prop{Name: "VarA", Schema: &dialect.Schema{Type: "object", Required: []string{"a", "kind"}, Props: []dialect.Prop{{Name: "a", Schema: str}, {Name: "kind", Schema: str}, {Name: "meta", Schema: &dialect.Schema{Ref: "AnyMeta"}}}}},
+							dialect.Prop{Name: "VarB", Schema: &dialect.Schema{Type: "object", Required: []string{"b", "kind"}, Props: []dialect.Prop{{Name: "b", Schema: i64}, {Name: "kind", Schema: str}}}})
+					}
+					one := &dialect.Schema{OneOf: []*dialect.Schema{{Ref: "VarA"}, {Ref: "VarB"}}}
+					if c14Wide && rng.Intn(2) == 0 {
+						one.DiscProp, one.DiscMap = "kind", map[string]string{"a": "VarA", "b": "VarB"}
+					}
+					if rng.Intn(2) == 0 {
+						cn := fmt.Sprintf("Either%d", len(sp.CompSchemas))
+						sp.CompSchemas = append(sp.CompSchemas, dialect.Prop{Name: cn, Schema: one})
+						one = &dialect.Schema{Ref: cn}
+					}
+					o.Body = &dialect.Body{Content: "application/json", Schema: one, Required: true}
+					extra = c14OneOfDocs
 				case 0, 1:
 					body = g.object(2, true)
 					if rng.Intn(2) == 0 {
@@ -163,7 +219,7 @@ func c14Package(rng *rand.Rand, idx int) (rcase, []c14op) {
 				plans = append(plans, pl)
 			}
 			pi.Ops = append(pi.Ops, o)
-			ops = append(ops, c14op{pi, o, body, plans})
+			ops = append(ops, c14op{pi, o, body, plans, extra})
 		}
 		scatterPathParams(rng, pi)
 		sp.Paths = append(sp.Paths, pi)
@@ -178,8 +234,13 @@ var c14Texts = []string{"", "x", "1", "-1", "0", "true", "false", "TRUE", "1.5",
 
 // a text in the lexical space of the parameter's type
 func c14Valid(sc *dialect.Schema, rng *rand.Rand) string {
-	if sc.Type == "array" && sc.Items != nil {
-		sc = sc.Items
+	for k := 0; k < 4; k++ {
+		if t, ok := c14Target[sc]; ok {
+			sc = t
+		}
+		if sc.Type == "array" && sc.Items != nil {
+			sc = sc.Items
+		}
 	}
 	switch sc.Type {
 	case "integer":
@@ -385,6 +446,9 @@ func c14Requests(rng *rand.Rand, g *jgen, ops []c14op, base string, per int, cfg
 		body := ""
 		if op.o.Body != nil {
 			bodies := c14JSONBodies(rng, g, op.body)
+			if len(op.extra) > 0 && rng.Intn(3) != 0 {
+				bodies = op.extra
+			}
 			body = bodies[rng.Intn(len(bodies))]
 		}
 		method := op.o.Method
@@ -489,6 +553,7 @@ func runC14(c runCfg) error {
 		}
 		pkgs = pkgsFromDLines(lines)
 	} else {
+		c14Wide = true
 		pkgs, lines, meta = c14Cases(c)
 	}
 	root, err := mkRoot(c)
@@ -534,4 +599,13 @@ func runC14(c runCfg) error {
 		impl[i] = res[k]
 	}
 	return writeFam(c, &famResult{Cases: lines, Impl: impl, Pkgs: pkgs}, meta)
+}
+
+func hasProp(ps []dialect.Prop, name string) bool {
+	for _, p := range ps {
+		if p.Name == name {
+			return true
+		}
+	}
+	return false
 }
